@@ -9,14 +9,21 @@ from the real backend (ManualBackendWorker; compile-time call sites and LOG_RUNT
 the mini-fmt parser alone against fmtquill::vformat_to.  What one field renders to is an oracle:
 the harness evaluates fmtquill::format("{fs}", value) and the case line carries the table.
 Monitor: the property itself (regex substitution of every %(attr:spec) by the oracle rendering,
-+ "\\n"; line splitting) evaluated on the implementation's output, independent of the model."""
++ "\\n"; line splitting) evaluated on the implementation's output, independent of the model.
+Part (d), props/patd_common.py + Props/Properties_C12d.v: WHICH line each sink of a logger is handed
+(BackendWorker::_write_log_statement / _process_multi_line_message / _dispatch_transit_event_to_sinks):
+model M-PATD (Format/PatDispatch.v), T-src (skeletons of the three methods + "log_to_write is re-initialised
+from log_statement inside the per-sink loop", TieC12d.v; the model's variant flag for the run is taken from
+that fact), T-corr on "patd" cases through the real backend (k sinks in random order, with/without override
+pattern options, level and user filters, one or two loggers, several statements), monitor = each sink's
+lines are those of its own effective pattern for the message lines its filters pass."""
 import json, os, re, sys
 from vlib import Check, standard_proof_phase, correspond, ddmin, sh, VERIF, COQ
 
 PID = 'C12'
 MANIFEST = dict(
-    text='Machine-checked (Coq) for every well-formed pattern (any subset/order of the 16 attributes, each once, any spec without ) { }, literal text without braces and "%(", including "%"), every attribute value and every per-field renderer: the constructor rewrites the printed pattern to exactly the expected fmt string / slot table (the restart-from-0 re-scan skips the rewritten prefix), format() yields the pattern with each attribute replaced by its rendered value plus "\\n", used attributes get distinct slots, unknown names and unterminated "%(" are rejected at creation, multi-line messages give one full line per message line (option on) or one statement minus at most one trailing newline (option off / named args), MacroMetadata file/line/path fields and the runtime-metadata split are the stated substrings. Refutations (replayed on the code): empty pattern gives no newline, literal braces are fmt syntax, duplicate attribute throws at format time, source locations >= 65536 bytes are truncated (uint16). Tied to the code by differential runs of the extracted model against PatternFormatter, the real backend sink path and fmtquill::vformat_to, plus a direct property monitor.',
-    design='5 C12', technique='Coq proof over an executable model (mini-fmt + M-PAT, fmt field rendering as an oracle) + extracted-model/implementation differential correspondence')
+    text='Machine-checked (Coq) for every well-formed pattern (any subset/order of the 16 attributes, each once, any spec without ) { }, literal text without braces and "%(", including "%"), every attribute value and every per-field renderer: the constructor rewrites the printed pattern to exactly the expected fmt string / slot table (the restart-from-0 re-scan skips the rewritten prefix), format() yields the pattern with each attribute replaced by its rendered value plus "\\n", used attributes get distinct slots, unknown names and unterminated "%(" are rejected at creation, multi-line messages give one full line per message line (option on) or one statement minus at most one trailing newline (option off / named args), MacroMetadata file/line/path fields and the runtime-metadata split are the stated substrings. Refutations (replayed on the code): empty pattern gives no newline, literal braces are fmt syntax, duplicate attribute throws at format time, source locations >= 65536 bytes are truncated (uint16). Sink selection (Properties_C12d): for a logger with any ordered list of sinks (each with or without override pattern options, any filter outcome per message line), every sink that passes its filters is handed exactly the line of its own effective pattern (override if present, else the logger\'s) for each message line, independent of the other sinks and of their order (permutation theorem); filtered-out and foreign sinks get nothing; the formatter looked up in other loggers is one for the logger\'s own options; the variant with log_to_write declared outside the per-sink loop is refuted, and T-src (clang AST skeletons of _write_log_statement, _process_multi_line_message, _dispatch_transit_event_to_sinks) proves the code is the good variant. Also proved and replayed: the multi-line option of a sink\'s override options is never read (open finding), an override pattern rejected at creation starves the sinks behind it (outside the quantifier). Tied to the code by differential runs of the extracted model against PatternFormatter, the real backend sink path (one sink; and several sinks with override patterns and filters in random order) and fmtquill::vformat_to, plus a direct property monitor.',
+    design='5 C12', technique='Coq proof over an executable model (mini-fmt + M-PAT + M-PATD sink dispatch, fmt field rendering as an oracle) + T-src skeleton tie for the dispatch methods + extracted-model/implementation differential correspondence')
 TRUSTED = [
     'Coq 8.16.1 kernel (coqc, vm_compute for the refutation witnesses; no native_compute)',
     'axioms: none (every theorem Closed under the global context)',
@@ -26,6 +33,7 @@ TRUSTED = [
     'extraction: ExtrOcamlBasic only, OCaml 4.13.1 ocamlopt, extract/driver.ml',
     'correspondence harness harness/pat.cpp (recording sink, ManualBackendWorker, #line-pinned call sites, private->public for the constructor-state mode only), g++ -fsanitize=address,undefined',
     'modelled rather than verified: PatternFormatter / MacroMetadata / the multi-line dispatch are re-stated in Gallina (Format/PatModel.v); std::string index arithmetic is modelled by structural list functions',
+    'sink dispatch (Format/PatDispatch.v): Sink::apply_all_filters is a function of (level, message line, logger statement) per sink (user filters and Sink::write_log are assumed not to throw and not to touch other sinks); tools/srcfacts.py c12d_facts (clang 14 JSON AST skeletons of _write_log_statement, _process_multi_line_message, _dispatch_transit_event_to_sinks) for the T-src tie TieC12d.v',
 ]
 
 ATTRS = ['time', 'file_name', 'caller_function', 'log_level', 'log_level_short_code', 'line_number', 'logger',
@@ -219,6 +227,9 @@ def prop_in_scope(d):
 
 
 def monitor(case, impl_line, strict=False):
+    if case.startswith('patd '):
+        from props import patd_common as D
+        return D.monitor(case, impl_line)
     d = decode(case)
     if d is None or d['mode'] not in (0, 1): return None
     c = classify(d['pattern'], strict)
@@ -565,6 +576,9 @@ def open_findings():
 
 
 def known_match(case, impl_line, msg):
+    if case.startswith('patd '):
+        from props import patd_common as D
+        return D.known_match(case, impl_line, msg)
     d = decode(case)
     if d is None or 'pattern' not in d: return None
     for f in open_findings():
@@ -606,21 +620,35 @@ def norm_model(m, i):
 
 
 def run(tier):
+    from props import patd_common as D
+    from props.c01 import srcfacts_values
     ck = Check(PID, tier)
     broken = standard_proof_phase(ck, 'Properties_C12')
+    # part (d): the sink-selection theorems and their T-src tie (Properties_C12d imports TieC12d)
+    for o in ck.coq_obligations('Properties_C12d'):
+        if not o['discharged']: broken.append('theorem %s: %s' % (o['name'], o['why']))
+    facts = srcfacts_values()
+    reinit = facts.get('be_log_to_write_reinit_per_sink')
+    # the model variant that stands for the code: log_to_write declared outside the loop <=> hoist = 1
+    hoist = 0 if reinit == 'true' else 1
+    ck.tie.append({'T-src facts': {'be_log_to_write_reinit_per_sink': reinit},
+                   'model variant for the dispatch correspondence': 'hoist=%d' % hoist,
+                   'lemmas': 'TieC12d.src_log_to_write_reinit_per_sink, TieC12d.c12d_skeletons_ok (vm_compute)'})
     q = tier == 'quick'
     if not q:
-        # independent re-check of the compiled closure of the property file by coqchk
-        rc, so, se = sh(['coqchk', '-silent', '-o', '-Q', 'theories', 'Quill', '-Q', 'gen', 'QuillGen', 'Quill.Props.Properties_C12'], cwd=COQ, timeout=1200)
-        ok = rc == 0 and 'Axioms: <none>' in so
-        ck.tie.append({'name': 'coqchk -o Quill.Props.Properties_C12', 'ok': ok})
-        if not ok: broken.append('coqchk -o on Properties_C12 failed: ' + (so + str(se))[-300:])
+        # independent re-check of the compiled closure of the property files by coqchk
+        for pf in ('Properties_C12', 'Properties_C12d'):
+            rc, so, se = sh(['coqchk', '-silent', '-o', '-Q', 'theories', 'Quill', '-Q', 'gen', 'QuillGen', 'Quill.Props.' + pf], cwd=COQ, timeout=1200)
+            ok = rc == 0 and '* Axioms: <none>' in (so + str(se))      # coqchk prints its context summary on stderr
+            ck.tie.append({'name': 'coqchk -o Quill.Props.' + pf, 'ok': ok})
+            if not ok: broken.append('coqchk -o on %s failed: ' % pf + (so + str(se))[-300:])
     mexe, iexe = build(ck)
     if not mexe: return ck.finish(trusted=TRUSTED)
     orc = Oracle(ck, iexe); rng = ck.rng
     objs = (gen_direct(rng, 3000 if q else 40000) + gen_malformed(rng, 800 if q else 10000)
             + gen_e2e(rng, 300 if q else 4000, 6 if q else 9) + gen_fmt(rng, 1000 if q else 15000)
             + gen_state(rng, 600 if q else 8000))
+    dobjs = D.gen(rng, 1500 if q else 20000, hoist)
     tm = orc.times([o['st']['ts'] for o in objs if o['mode'] == 0])
     for o in objs:
         if o['mode'] == 0: o['st']['time'] = tm[o['st']['ts']]
@@ -628,19 +656,25 @@ def run(tier):
     allpairs = []
     for o in objs:
         if o['mode'] != 3: allpairs += needed_pairs(o)
+    for o in dobjs: allpairs += D.needed_pairs(o)
     orc.fields(allpairs)
-    gen_lines = [mk_line(o, orc) for o in objs]
+    gen_lines = [mk_line(o, orc) for o in objs] + [D.enc_case(o, orc) for o in dobjs]
     kinds = {}
     for o in objs: kinds[o['kind']] = kinds.get(o['kind'], 0) + 1
-    cp = corpus()
+    kinds['dispatch'] = len(dobjs)
+    cp = [with_hoist(c, hoist) for c in corpus()]
     cases = cp + gen_lines
     ck.log('cases: %d corpus + %d generated %s' % (len(cp), len(gen_lines), kinds))
     ml = ck.run_model(mexe, cases)
-    il = ck.run_impl(iexe, cases, timeout=600)
+    il = ck.run_impl(iexe, cases, timeout=600 if q else 3000)
     ml = [norm_obs(c, norm_model(m, i)) for c, m, i in zip(cases, ml, il)]
+    ml = [(i if (c.startswith('patd ') and not D.model_is_prediction(m)) else m) for c, m, i in zip(cases, ml, il)]
     il = [norm_obs(c, i) for c, i in zip(cases, il)]
 
     def shrink(case, mode):
+        if case.startswith('patd '):
+            return D.shrink_case(ck, mexe, iexe, orc, case, mode,
+                                 lambda m, i: (not D.model_is_prediction(m)) or m == i)
         return shrink_case(ck, mexe, iexe, orc, case, mode)
 
     dis, mon = correspond(ck, 'M-PAT vs PatternFormatter/BackendWorker/vformat_to', cases, ml, il,
@@ -654,6 +688,11 @@ def run(tier):
             if k and k not in ck.known: ck.known.append(k)
             elif not k and not ck.violations:
                 ck.violation('impl-failing-input', 'property monitor (strict) on a corpus case: ' + mf, case=c, expected='property clause holds', observed=i[:2000])
+    if hoist == 1 and not ck.violations:
+        # T-src says log_to_write is not re-initialised per sink and no generated case showed it: the model witness
+        ck.violation('model-witness', 'SrcFacts.be_log_to_write_reinit_per_sink = false: a sink without override behind a sink with override pattern is handed the override line (theorem C12d_hoisted_refuted); broken: ' + '; '.join(broken)[:300],
+                     case=with_hoist(D.corpus_cases(orc, 1)[0], 1), expected='the plain sink is handed the line of the logger\'s pattern',
+                     observed='model variant hoist=1: the plain sink is handed the override line')
     if broken and not ck.violations:
         ck.violation('no-failing-input-found', '; '.join(broken))
     # what the code does on the inputs the property excludes (documented, not judged)
@@ -674,13 +713,40 @@ def run(tier):
     for o in objs:
         if o['mode'] == 0 and o['kind'] == 'valid':
             k = len(FIELD_RE.findall(o['pattern'])); nused[k] = nused.get(k, 0) + 1
-    return ck.finish(trusted=TRUSTED, samples=[c[:400] for c in (gen_lines[:2] + gen_lines[-1:])],
-                     rule='case = "pat <mode> ..." (0 create+format, 1 lines at the recording sink through the real backend, 2 vformat_to alone, 3 constructor state), strings length-prefixed, oracle table appended; non-trivial = valid pattern with >= 2 attributes and >= 2 different specs, or a multi-line message through the backend; distinct by case text',
+    # part (d) coverage: measured on the implementation's observations
+    dcov = {'cases': 0, 'in_property_scope': 0, 'override_sink_before_plain_sink_both_written': 0, 'statements': 0,
+            'multi_line_statements': 0, 'cases_with_a_filtered_out_sink': 0, 'cases_with_two_loggers': 0,
+            'cases_with_a_throwing_statement': 0, 'sinks_per_case_histogram': {}, 'model_variant_hoist': hoist}
+    for c, i in zip(cases, il):
+        if not c.startswith('patd '): continue
+        d = D.decode(c)
+        if d is None: continue
+        dcov['cases'] += 1; dcov['statements'] += len(d['stmts'])
+        dcov['multi_line_statements'] += sum(1 for t in d['stmts'] if b'\n' in t['st']['msg'])
+        k = str(len(d['sinks'])); dcov['sinks_per_case_histogram'][k] = dcov['sinks_per_case_histogram'].get(k, 0) + 1
+        if len(d['loggers']) > 1: dcov['cases_with_two_loggers'] += 1
+        if D.in_scope(d) is None: dcov['in_property_scope'] += 1
+        o = D.parse_obs(i)
+        if o:
+            if any(o[0]): dcov['cases_with_a_throwing_statement'] += 1
+            used = set(x for l in d['loggers'] for x in l['sinks'])
+            if any(ix < len(o[1]) and not o[1][ix] for ix in used): dcov['cases_with_a_filtered_out_sink'] += 1
+        if D.nontrivial(d, i):
+            dcov['override_sink_before_plain_sink_both_written'] += 1; nt.add(c)
+    return ck.finish(trusted=TRUSTED, samples=[c[:400] for c in (gen_lines[:2] + gen_lines[len(objs) - 1:len(objs)] + gen_lines[-1:])],
+                     rule='case = "pat <mode> ..." (0 create+format, 1 lines at the recording sink through the real backend, 2 vformat_to alone, 3 constructor state) or "patd <variant> sinks loggers statements" (lines handed to each of several sinks through the real backend), strings length-prefixed, oracle table appended; non-trivial = valid pattern with >= 2 attributes and >= 2 different specs, or a multi-line message through the backend, or (patd) a logger whose override-pattern sink precedes a plain sink and both were written; distinct by case text',
                      evaluations=len(cases), distinct_nontrivial=len(nt), traces=len(cases) - len(dis) - len(mon),
                      extra_cov={'disagreements': len(dis), 'monitor_failures': len(mon), 'corpus_cases': len(cp),
                                 'generated_by_kind': kinds, 'attributes_used_histogram': {str(k): v for k, v in sorted(nused.items())},
                                 'oracle_field_renderings': len(orc.f),
-                                'behaviour_on_excluded_inputs': excl})
+                                'behaviour_on_excluded_inputs': excl, 'sink_dispatch': dcov})
+
+
+def with_hoist(case, hoist):
+    """a corpus patd line carries the model's variant flag as its first number: set it to the variant of this run"""
+    if not case.startswith('patd '): return case
+    t = case.split(' ', 2)
+    return '%s %d %s' % (t[0], hoist, t[2])
 
 
 def shrink_case(ck, mexe, iexe, orc, case, mode):
@@ -723,6 +789,15 @@ def replay(path):
     c = dct.get('case')
     if not c or not mexe:
         print('replay holds no concrete case; broken:', dct.get('broken')); return 1
+    if c.startswith('patd '):
+        from props import patd_common as D
+        m = ck.run_model(mexe, [c])[0]; i = ck.run_impl(iexe, [c])[0]
+        print('case :', c[:2000]); print(D.describe(c))
+        print('model (variant flag %s):' % c.split()[1], D.show_obs(m)); print('impl :', D.show_obs(i))
+        mf = D.monitor(c, i)
+        print('property monitor:', mf or 'holds')
+        if mf and D.known_match(c, i, mf): print('KNOWN-FINDING: property=%s %s' % (PID, D.known_match(c, i, mf)))
+        return 1 if mf else 0
     d = decode(c)
     m = ck.run_model(mexe, [c])[0]; i = ck.run_impl(iexe, [c])[0]
     print('case :', c[:2000])
@@ -789,8 +864,27 @@ def make_corpus():
     d = os.path.join(VERIF, 'corpus', PID); os.makedirs(d, exist_ok=True)
     open(os.path.join(d, 'boundary.case'), 'w').write('\n'.join(boundary) + '\n')
     open(os.path.join(d, 'findings.case'), 'w').write('\n'.join(findings) + '\n')
+    make_corpus_dispatch(ck, mexe, iexe, orc)
     cases = [c for c in boundary + findings if not c.startswith('#')]
     mlines = ck.run_model(mexe, cases); il = ck.run_impl(iexe, cases)
     for c, m, i in zip(cases, mlines, il):
         mf = monitor(c, i, strict=True)
         print(decode(c).get('pattern')[:60], '| agree' if norm_obs(c, m) == norm_obs(c, i) else '| DISAGREE m=[%s] i=[%s]' % (m[:80], i[:80]), '|', (mf or 'ok')[:160], '|', known_match(c, i, mf) if mf else '')
+
+
+def make_corpus_dispatch(ck=None, mexe=None, iexe=None, orc=None):
+    """(re)writes corpus/C12/dispatch.case and dispatch_findings.case (part (d)); python3 -c "import props.c12 as P; P.make_corpus_dispatch()" """
+    from props import patd_common as D
+    if ck is None:
+        ck = Check(PID, 'quick'); mexe, iexe = build(ck); orc = Oracle(ck, iexe)
+    b = D.corpus_cases(orc, 0); f = D.finding_cases(orc, 0)
+    d = os.path.join(VERIF, 'corpus', PID)
+    open(os.path.join(d, 'dispatch.case'), 'w').write(
+        '# part (d): override sink before / behind plain sinks, filters that pass only some sinks, shared sinks and formatters\n' + '\n'.join(b) + '\n')
+    open(os.path.join(d, 'dispatch_findings.case'), 'w').write(
+        '# C12-override-multiline-option (open): the add_metadata_to_multi_line_logs of a sink\'s override options is never read\n' + '\n'.join(f) + '\n')
+    cases = b + f
+    ml = ck.run_model(mexe, cases); il = ck.run_impl(iexe, cases)
+    for c, m, i in zip(cases, ml, il):
+        mf = D.monitor(c, i)
+        print('agree' if m == i else 'DISAGREE', '|', (mf or 'ok')[:200], '|', D.known_match(c, i, mf) if mf else '', '|', D.show_obs(i)[:300])
